@@ -1,6 +1,7 @@
 import Rink.Model.GnuUnits
 import Rink.Driver.Expr
 import Rink.Model.Load
+import Rink.Model.LoadCheck
 /-! Driver for the loader models: `defs FILE` prints the parsed definitions of a file, one per line. -/
 namespace Rink.Driver.Load
 open Rink Rink.Driver Rink.Gnu
@@ -127,6 +128,18 @@ def parseTdef (line : String) : Option Gnu.DefEntry :=
     | _, _ => none
   | _ => none
 
+/-- the C08 predicates of a loaded state, one `report` line per predicate -/
+def dumpReport (st : LS) (out : IO.FS.Stream) : IO Unit := do
+  let r := report st
+  let line := fun (tag : String) (l : List String) => out.putStrLn s!"report {tag} {l.length} {" ".intercalate (l.map hex)}"
+  line "fixedPointBad" r.fixedPointBad
+  line "fixedPointUnsupported" (fixedPointUnsupported st)
+  out.putStrLn s!"report fixedPointChecked {fixedPointChecked st}"
+  line "foreignDims" r.foreignDims
+  line "quantityMismatch" r.quantityMismatch
+  line "danglingAliases" r.danglingAliases
+  line "orphans" r.orphans
+
 /-- `loadt SCENARIO`: blocks of `tdef` lines between `begin` / `end`; each block is one `Context::load` -/
 def loadtMain (path : String) : IO Unit := do
   let text ← IO.FS.readFile path
@@ -141,8 +154,29 @@ def loadtMain (path : String) : IO Unit := do
       match parseTdef line with
       | some d => cur := cur.push d
       | none => bad := bad + 1
+    else if line.startsWith "text " then
+      -- `Context::load_definitions` of a file
+      let t ← IO.FS.readFile (unhex (line.drop 5).toString.trimAscii.toString)
+      st := loadDefs st (Gnu.parseStr t)
+    else if line.startsWith "multitext " then
+      -- several files parsed separately, concatenated, one `Context::load` (what the CLI does)
+      let mut defs : List Gnu.DefEntry := []
+      for f in (line.drop 10).toString.trimAscii.toString.splitOn " " do
+        let t ← IO.FS.readFile (unhex f)
+        defs := defs ++ Gnu.parseStr t
+      st := loadDefs st defs
+    else if line.startsWith "currency " then
+      -- `Context::load_currency(json, units)`; the JSON in the line form of `rkh jsondefs`
+      match (line.drop 9).toString.trimAscii.toString.splitOn " " with
+      | [j, u] =>
+        let jtext ← IO.FS.readFile (unhex j ++ ".jdefs")
+        let utext ← IO.FS.readFile (unhex u)
+        if (jtext.splitOn "\n").any (· == "jsonerror") then st := { st with errors := st.errors ++ ["json"] }
+        else st := loadDefs st (Gnu.parseStr utext ++ (jtext.splitOn "\n").filterMap parseJdef)
+      | _ => bad := bad + 1
   if bad > 0 then out.putStrLn s!"bad-tdef-lines {bad}"
   dumpLS st out
+  dumpReport st out
 
 /-- `load FILE... [--currency JDEFS UNITS]` -/
 def loadMain (args : List String) : IO Unit := do
@@ -162,5 +196,6 @@ def loadMain (args : List String) : IO Unit := do
       go (loadDefs st (Gnu.parseStr text)) rest
   let st ← go {} args
   dumpLS st out
+  dumpReport st out
 
 end Rink.Driver.Load
